@@ -15,8 +15,8 @@
    weighted space; IndicatorSimplex(diameter >= 0) on a uniformly weighted space; LpNorm(inf) and
    IndicatorLpUnitBall(1) on an unweighted space (their proximals are NOT minimisers on other weightings:
    recorded findings, see C07/Refuted.v); GroupL1Norm(exponent 2) on a power space X^d whose weights are those
-   of X repeated d times.  IndicatorGroupL1UnitBall(exponent 2) is modelled and tied by the correspondence
-   only; the KL family has its own theorems below (its values involve ln).                              *)
+   of X repeated d times, and IndicatorGroupL1UnitBall(exponent 2) likewise.  The KL family has its own
+   theorems below (its values involve ln).                                                              *)
 From Coq Require Import Reals Lra List Bool.
 From Verif Require Import Base.Num Base.Vec Base.VecR C07.Model C07.Convex C07.Leaves C07.LeafThms C07.Rules C07.L2 C07.Compose C07.Sorting C07.KL C07.Group C07.Proofs C07.Refuted.
 Import ListNotations.
@@ -242,6 +242,14 @@ Theorem group_l1_l2_prox : forall m d (wb x : list R) (s : R), 0 < s -> (1 <= d)
   is_proxs (d * m) (leaf_val (FGroupL1 m d true) w) (metric w (repeat s (d * m))) x (prox_l1_l2 m d 1 None s x).
 Proof. exact groupl1_leaf_prox. Qed.
 Print Assumptions group_l1_l2_prox.
+(* IndicatorGroupL1UnitBall(X^d, exponent 2) / proximal_convex_conj_l1_l2: projection of every point onto the unit
+   ball of R^d *)
+Theorem group_unit_ball_prox : forall m d (wb x : list R) (s : R), 0 < s -> (1 <= d)%nat -> allpos wb -> length wb = m ->
+  length x = (d * m)%nat ->
+  let w := concat (repeat wb d) in
+  is_proxs (d * m) (leaf_val (FGroupBall m d true) w) (metric w (repeat s (d * m))) x (prox_cc_l1_l2 m d 1 None s x).
+Proof. exact groupball_leaf_prox. Qed.
+Print Assumptions group_unit_ball_prox.
 
 (* Kullback-Leibler (values involve ln, so these leaves are outside the executable tree model; the proximal
    formulas are the model's, tied by the correspondence):
